@@ -71,6 +71,21 @@ def featOps (op : String) (args : List String) (_impl : String) : Option String 
         let doc := match h.doc with | some x => hexOfText x | none => "_"
         s!"{hexOfText h.label}|[{",".intercalate (h.params.map hexOfText)}]|active={act}|doc={doc}|n=1"
     | _, _ => none
+  | "SEM", [t] => withDoc t fun d =>
+      match semanticTokens d with
+      | .error e => panicStr e
+      | .ok ts => " ".intercalate (ts.map (fun s => s!"{s.deltaLine},{s.deltaStart},{s.length},{s.tokenType},{s.modifiers}"))
+  | "COMP", [t, l, c] =>
+    match l.toNat?, c.toNat? with
+    | some l, some c => withDoc t fun d =>
+      match completion d ⟨l, c⟩ with
+      | .error e => panicStr e
+      | .ok none => "none"
+      | .ok (some items) =>
+        let o := fun (x : Option (List Char)) => match x with | some v => hexOfText v | none => "_"
+        let strs := items.map (fun i => s!"{hexOfText i.label}:{i.kind}:{o i.detail}:{o i.insertText}:{o i.doc}")
+        "[" ++ ",".intercalate (strs.toArray.qsort (· < ·)).toList ++ "]"
+    | _, _ => none
   | "FOLD", [t] => withDoc t fun d =>
       match fold d with
       | .error e => panicStr e
